@@ -20,7 +20,7 @@ func init() {
 			"R09-rawkey — every call of (*LTable).RawSet/RawSetH with a key that is not typed (int-converted number or string) goes through (*LState).RawSet, whose nil and NaN tests raise before the store; R09-next — Next consults keys/k2i only through RawGetH and returns LNil,LNil at exhaustion. " +
 			"NOT decided: value-most-recently-stored, the border property of Len, exactly-once traversal — history properties.",
 		Trusted: []string{"Go map semantics for dict/strdict"},
-		Rules:   []func(*Ctx){ruleSetlistOffsetAfterBatchRead, ruleArrayPresenceIsNotNil, ruleSiblings, ruleInsertShiftsWhateverTheValue, ruleSetFieldStores, ruleInsertBoundary, ruleRoute, ruleOwner, ruleRawKey, ruleApiHoles, ruleDelegate, ruleFloatKeyToIndex},
+		Rules:   []func(*Ctx){ruleListHelpersUseTheBorder, ruleSetlistOffsetAfterBatchRead, ruleArrayPresenceIsNotNil, ruleSiblings, ruleInsertShiftsWhateverTheValue, ruleSetFieldStores, ruleInsertBoundary, ruleRoute, ruleOwner, ruleRawKey, ruleApiHoles, ruleDelegate, ruleFloatKeyToIndex},
 	})
 }
 
